@@ -17,6 +17,11 @@ import (
 // taken, and locals assigned inside a loop or closure other than where they are used are left
 // alone. undo removes the hook.
 func (c *Ctx) InstallReaching(fd *ast.FuncDecl) (undo func()) {
+	return c.InstallReachingIn(fd.Body)
+}
+
+// InstallReachingIn is InstallReaching for the body of a function or function literal.
+func (c *Ctx) InstallReachingIn(root *ast.BlockStmt) (undo func()) {
 	type def struct {
 		rhs   ast.Expr
 		at    token.Pos // end of the assignment
@@ -38,7 +43,7 @@ func (c *Ctx) InstallReaching(fd *ast.FuncDecl) (undo func()) {
 				return stack[i]
 			}
 		}
-		return fd.Body
+		return root
 	}
 	inLoopOrLit := func() bool {
 		for _, n := range stack {
@@ -49,7 +54,7 @@ func (c *Ctx) InstallReaching(fd *ast.FuncDecl) (undo func()) {
 		}
 		return false
 	}
-	ast.Inspect(fd.Body, func(n ast.Node) bool {
+	ast.Inspect(root, func(n ast.Node) bool {
 		if n == nil {
 			stack = stack[:len(stack)-1]
 			return true
@@ -139,7 +144,7 @@ func (c *Ctx) InstallReaching(fd *ast.FuncDecl) (undo func()) {
 			return nil
 		}
 		use := id.Pos()
-		if use < fd.Body.Pos() || use > fd.Body.End() {
+		if use < root.Pos() || use > root.End() {
 			// an identifier inside an already substituted expression keeps its own position, so
 			// this only happens for synthetic nodes
 			return nil
